@@ -456,17 +456,37 @@ fn float_one<A: Arith>(name: &str, vals: &[f64], acc: &mut Acc, st: &mut FloatSt
     judge_float::<A>(name, &mut a, vals, acc, st);
 }
 
+fn gcd(a: usize, b: usize) -> usize {
+    if b == 0 {
+        a
+    } else {
+        gcd(b, a % b)
+    }
+}
+
 fn float_sweep<A: Arith>(name: &str, vecs: &[Vec<f64>]) -> (Acc, f64) {
     use rayon::prelude::*;
-    let chunks: Vec<&[Vec<f64>]> = vecs.chunks(4096).collect();
-    let res: Vec<(Acc, f64)> = chunks
-        .par_iter()
-        .map(|ch| {
+    // Each chunk is processed by ONE arithmetic object, in a stride order that mixes the degrees
+    // (so a node of small degree is evaluated after nodes of larger degree and vice versa: scratch
+    // state kept inside the arithmetic must not leak from one check node into the next).
+    let nchunks = vecs.len().div_ceil(4096).max(1);
+    let res: Vec<(Acc, f64)> = (0..nchunks)
+        .into_par_iter()
+        .map(|c| {
             let mut acc = Acc::new();
             let mut st = FloatStats { worst_ratio: 0.0 };
             let mut a = A::default();
-            for v in ch.iter() {
-                judge_float::<A>(name, &mut a, v, &mut acc, &mut st);
+            // multiplicative permutation of the index range (bijection: multiplier coprime with len)
+            let len = vecs.len();
+            let mut mult = 7919usize;
+            while gcd(mult, len) != 1 {
+                mult += 2;
+            }
+            let mut j = c;
+            while j < len {
+                let i = (j.wrapping_mul(mult) + 13) % len;
+                judge_float::<A>(name, &mut a, &vecs[i], &mut acc, &mut st);
+                j += nchunks;
             }
             (acc, st.worst_ratio)
         })
@@ -536,7 +556,7 @@ pub fn run(run: &Run) -> i32 {
         run,
         acc,
         Coverage {
-            rule: "8-bit types (16): EVERY vector in [-127,127]^d for d = 2 and d = 3, and for d in {4,5,8,30} (thorough: 4,5,6,8,13,20,30) every multiset over 3-value sub-alphabets of {+-127,+-100,+-99,+-1,0,50,-37} in two orderings. Float types (8): full power of a 13-value alphabet for d <= 4 (thorough 5), and for larger d up to 30 every vector with <= 3 positions deviating from a common background. Source tags are distinct, non-contiguous and unsorted. Oracles: routing, sign parity, magnitude bound, exact box-plus (phi/tanh/A-Min*), [exact-(d-2)ln2, exact] (min* approximations), 0.5 unit per table lookup from the real-valued rule (8-bit), partial-hard-limit promotion rule, never -128. Float tolerance is per instance from a first-order conditioning analysis; instances whose tolerance exceeds 0.1 are counted as ill-conditioned and judged only on routing/finiteness/magnitude cap. Non-trivial = at least one well-conditioned output (float) / no zero input (8-bit).".into(),
+            rule: "8-bit types (16): EVERY vector in [-127,127]^d for d = 2 and d = 3, and for d in {4,5,8,30} (thorough: 4,5,6,8,13,20,30) every multiset over 3-value sub-alphabets of {+-127,+-100,+-99,+-1,0,50,-37} in two orderings. Float types (8): full power of a 13-value alphabet for d <= 4 (thorough 5), and for larger d up to 30 every vector with <= 3 positions deviating from a common background. Source tags are distinct, non-contiguous and unsorted. Each arithmetic object is reused across many nodes in an order that mixes the degrees (small after large and large after small). Oracles: routing, sign parity, magnitude bound, exact box-plus (phi/tanh/A-Min*), [exact-(d-2)ln2, exact] (min* approximations), 0.5 unit per table lookup from the real-valued rule (8-bit), partial-hard-limit promotion rule, never -128. Float tolerance is per instance from a first-order conditioning analysis; instances whose tolerance exceeds 0.1 are counted as ill-conditioned and judged only on routing/finiteness/magnitude cap. Non-trivial = at least one well-conditioned output (float) / no zero input (8-bit).".into(),
             exhaustive: true,
             extra,
             graph: None,
